@@ -4,6 +4,7 @@ import (
 	"bytes"
 	"context"
 	"encoding/binary"
+	"encoding/json"
 	"errors"
 	"fmt"
 	"math/bits"
@@ -146,7 +147,7 @@ func c27Generate(r *verifh.Run) []string {
 		c27Line(nil, nil, []byte{1}, []byte{2}, def, []c27Alloc{{a, 9}}),
 	}
 	pool := [][]byte{a, b, c, c27Addr(4), make([]byte, codec.AddressLen)}
-	for i := 0; i < r.N(3000, 60000); i++ {
+	for i := 0; i < r.N(1500, 40000); i++ {
 		n := r.RNG.Intn(9)
 		as := make([]c27Alloc, n)
 		mode := r.RNG.Intn(5)
@@ -267,6 +268,42 @@ func c27Exec(r *verifh.Run, l string) {
 	db := c27NewDB()
 	blk, view, err := chain.NewGenesisCommit(ctx, db, g, mm, bh, &genesis.ImmutableRuleFactory{Rules: rules}, trace.Noop, logging.NoLog{})
 
+	// the same genesis value must give the same chain every time it is used: (1) the object
+	// is not altered by InitializeState, (2) a second initialisation of the SAME object on a
+	// fresh database and (3) one after a JSON round trip of the object equal the
+	// initialisation of a pristine object built from the op line.
+	mutated := len(g.CustomAllocation) != len(allocs)
+	for i := 0; !mutated && i < len(allocs); i++ {
+		mutated = g.CustomAllocation[i] == nil || !bytes.Equal(g.CustomAllocation[i].Address[:], allocs[i].addr) || g.CustomAllocation[i].Balance != allocs[i].bal
+	}
+	pristine := genesis.NewDefaultGenesis(nil)
+	pristine.Rules = rules
+	for _, a := range allocs {
+		pristine.CustomAllocation = append(pristine.CustomAllocation, &genesis.CustomAllocation{Address: codec.Address(a.addr), Balance: a.bal})
+	}
+	fpRef := c27Fingerprint(pristine, mm, bh, rules)
+	fpAgain := c27Fingerprint(g, mm, bh, rules)
+	fpJSON := "json-error"
+	if raw, jerr := json.Marshal(g); jerr == nil {
+		g3 := &genesis.DefaultGenesis{}
+		if jerr = json.Unmarshal(raw, g3); jerr == nil && g3.Rules != nil {
+			fpJSON = c27Fingerprint(g3, mm, bh, g3.Rules)
+		}
+	}
+	same := func(a string) string {
+		if a == fpRef {
+			return "same"
+		}
+		return "diff"
+	}
+	reuse := fmt.Sprintf(" again=%s json=%s mut=%v", same(fpAgain), same(fpJSON), mutated)
+	if mutated {
+		r.Violation("genesis-object-mutated", "InitializeState altered the genesis object's allocation list: %s", l)
+	}
+	if fpAgain != fpRef || fpJSON != fpRef {
+		r.Violation("genesis-not-reusable", "re-initialising the same genesis value gives another state (again=%s json=%s): %s", same(fpAgain), same(fpJSON), l)
+	}
+
 	// the property's statement, evaluated independently of the implementation
 	total, overflow := uint64(0), false
 	sums := map[string]uint64{}
@@ -295,7 +332,7 @@ func c27Exec(r *verifh.Run, l string) {
 		case errors.Is(err, tstate.ErrInvalidKeyValue):
 			kind = "keyvalue"
 		}
-		r.Emit(l, "err "+kind)
+		r.Emit(l, "err "+kind+reuse)
 		r.Count("err:" + kind)
 		if blk != nil || view != nil {
 			r.Violation("error-with-result", "NewGenesisCommit returned an error and a block/view for %s", l)
@@ -338,7 +375,7 @@ func c27Exec(r *verifh.Run, l string) {
 	for _, e := range ents {
 		fmt.Fprintf(&sb, " %s=%s", verifh.Hex(e.k), verifh.Hex(e.v))
 	}
-	r.Emit(l, sb.String())
+	r.Emit(l, sb.String()+reuse)
 	r.Distinct(sig)
 
 	// oracle
@@ -399,6 +436,33 @@ func c27Exec(r *verifh.Run, l string) {
 	if !okFee {
 		r.Violation("wrong-fee-state", "fee manager %x does not hold min prices %v with zero window/consumption", feeRaw, prices)
 	}
+}
+
+// c27Fingerprint initialises g on a fresh database and renders error class / root / full state.
+func c27Fingerprint(g *genesis.DefaultGenesis, mm metadata.MetadataManager, bh *balance.PrefixBalanceHandler, rules *genesis.Rules) string {
+	ctx := context.Background()
+	db := c27NewDB()
+	blk, view, err := chain.NewGenesisCommit(ctx, db, g, mm, bh, &genesis.ImmutableRuleFactory{Rules: rules}, trace.Noop, logging.NoLog{})
+	if err != nil {
+		switch {
+		case errors.Is(err, safemath.ErrOverflow):
+			return "err overflow"
+		case errors.Is(err, tstate.ErrInvalidKeyValue):
+			return "err keyvalue"
+		}
+		return "err other"
+	}
+	if cerr := view.CommitToDB(ctx); cerr != nil {
+		panic(cerr)
+	}
+	var ents []string
+	it := db.NewIterator()
+	for it.Next() {
+		ents = append(ents, verifh.Hex(it.Key())+"="+verifh.Hex(it.Value()))
+	}
+	it.Release()
+	sort.Strings(ents)
+	return fmt.Sprintf("root=%s hdr=%d:%d:%d %s", blk.StateRoot, blk.Hght, blk.Tmstmp, len(blk.Txs), strings.Join(ents, " "))
 }
 
 func c27HasZero(as []c27Alloc) bool {
